@@ -468,3 +468,21 @@ def restart_script(rng, name, who_dials):
         ops.append("ndeliver 0")
     ops.append("nexpect mesh 1 2")
     return Script(name, ops, {"suite": "node", "noshrink": True})
+
+
+def keyholder_script(rng, name, final):
+    """a peer that holds the session key seals raw plaintexts (no type byte): data, unknown type, truncated node info and, last, the EMPTY
+    plaintext.  Outside the outsider properties (the monitor gives no verdict); it validates the model at the point its no-panic theorem
+    excludes (`NonEmptySeals`): implementation and model must agree, also on the panic."""
+    ops = mesh(rng, 2) + ["npeer 1 p2"] + drain(6)
+    t = 0
+    for _ in range(2):
+        t += 1
+        ops += second([1, 2], t)
+    raws = ["00" + hx(ipv4_packet(ip4(1), ip4(2), b"raw")), "05", "01", "0100", "02", "00", "03", "04" + rng.bytes(5).hex(), "00" + rng.bytes(3).hex()]
+    for r in raws:
+        ops += ["nseal 1 p2 " + r, "ndeliver 0"]
+    ops += ["nseal 1 p9 00"]
+    if final:
+        ops += ["nseal 1 p2 -", "ndeliver 0"]
+    return Script(name, ops, {"suite": "node", "noshrink": True})
